@@ -48,10 +48,10 @@ def explore(ctx, extended=False, focus=None):
                "zero-coefficient linear combinations; for each: bytes of both files vs the Lean encoder run on the recorded trace, "
                "and the independent decoder's checks (well-formedness, canonical elements, decode = trace, satisfaction transfer); "
                "distinct = distinct (source, #pub, #priv, #constraints, witness value classes)")
-    n = ctx.n(120, 3000) * (3 if extended else 1)
+    n = ctx.n(480, 12000) * (3 if extended else 1)
     cases = progs.generate(ctx.rnd, n, "c10_", mix=[(4, progs.op_case), (2, progs.chain_case), (1, progs.method_case),
                                                     (1, progs.array_case), (1, progs.guarded_case)])
-    lines = [c.line() for c in cases] + direct_traces(ctx.rnd, ctx.n(120, 3000) * (3 if extended else 1))
+    lines = [c.line() for c in cases] + direct_traces(ctx.rnd, ctx.n(480, 12000) * (3 if extended else 1))
     w = common.Worker("snarkjs", "worker_files.py")
     try:
         outs = w.run(lines)
